@@ -53,6 +53,25 @@ Theorem C08_params : forall uri ns pstr more k,
 Proof. exact c08_params. Qed.
 Print Assumptions C08_params.
 
+(* Histories: after ANY sequence of Capabilities.add / Capabilities.remove the object is exactly the one built from the
+   (duplicate-free) list of URIs still present, so every statement above applies to it; a removed URI is gone and
+   nothing else is. *)
+Theorem C08_history : forall uris ops, exists ks, NoDup ks /\ caps_after uris ops = caps_of ks /\
+  (forall x, mem_bytes x ks = mem_bytes x (fold_left keys_op ops (fold_left addk uris []))).
+Proof. exact c08_history. Qed.
+Print Assumptions C08_history.
+
+Theorem C08_remove_present : forall ks u x,
+  mem_bytes x (keys_op ks (ORemove u)) = mem_bytes x ks && negb (beq u x).
+Proof. exact c08_remove_present. Qed.
+Print Assumptions C08_remove_present.
+
+Example C08_ex_remove_keeps_other_base :
+  getitem (caps_after [lit "urn:ietf:params:netconf:base:1.0"%string; lit "urn:ietf:params:netconf:base:1.1"%string]
+                      [ORemove (lit "urn:ietf:params:netconf:base:1.0"%string)]) (lit ":base"%string)
+  = Ok (from_uri (lit "urn:ietf:params:netconf:base:1.1"%string)).
+Proof. vm_compute. reflexivity. Qed.
+
 (* Non-vacuity: concrete instances of the hypotheses and conclusions above. *)
 Definition ex_uris : list bytes :=
   [ lit "urn:ietf:params:netconf:base:1.1"%string;
